@@ -1124,6 +1124,18 @@ package psatoken
 //@   ensures[validates] ret ==> validP1(*c)
 //@   modifies c.ClientID, c.SecurityLifeCycle, c.ImplID, c.BootSeed, c.Nonce, c.InstID, c.SwComponents, c.NoSwMeasurements, c.SwComponents.(*SwComponents[*SwComponent]).values
 
+//@ func verifLemmaValidGettersP2
+//@   property C01
+//@   requires c != nil && wfP2(*c)
+//@   ensures[getters] ret0 ==> ret1
+//@   modifies nothing
+
+//@ func verifLemmaValidGettersP1
+//@   property C01
+//@   requires c != nil && wfP1(*c)
+//@   ensures[getters] ret0 ==> ret1
+//@   modifies nothing
+
 //@ func verifLemmaSettersCommute
 //@   property C11
 //@   requires a != nil && b != nil && a != b && a.VSI == nil && b.VSI == nil && a.BootSeed == nil && b.BootSeed == nil
